@@ -26,10 +26,16 @@ TopHelpers == {"IsNil", "NotEmpty", "ItemsEqual-nil", "ItemsEqual-self", "ItemsE
                "ItemCollection.Contains", "ItemCollection.Append", "ItemCollection.Remove", "IRIs.Contains", "IRIs.Append",
                "Collection.Contains", "OrderedCollection.Append",
                "CopyItemProperties-to", "CopyItemProperties-from", "MarshalJSON", "GobEncode",
-               "CollectionPath.IRI", "CollectionPath.Of", "CollectionPath.AddTo"}
+               "CollectionPath.IRI", "CollectionPath.Of", "CollectionPath.AddTo",
+               \* the Equals METHOD of a valid value, given the nil item as its argument
+               "Object.Equals", "Actor.Equals", "Activity.Equals", "IntransitiveActivity.Equals", "Link.Equals", "Collection.Equals",
+               "OrderedCollection.Equals", "CollectionPage.Equals", "OrderedCollectionPage.Equals", "ItemCollection.Equals", "IRI.ItemsMatch"}
+EqualsMethods == {"Object.Equals", "Actor.Equals", "Activity.Equals", "IntransitiveActivity.Equals", "Link.Equals", "Collection.Equals",
+                  "OrderedCollection.Equals", "CollectionPage.Equals", "OrderedCollectionPage.Equals", "ItemCollection.Equals"}
 \* helpers applied to an otherwise valid value holding the nil item (as list member / as property)
 ContainerHelpers == {"MarshalJSON", "GobEncode", "ItemsEqual-self", "FlattenProperties", "CleanRecipients", "Recipients",
-                     "ItemCollectionDeduplication", "Contains-valid", "Append-valid", "Remove-valid", "DerefItem", "OnItem", "NotEmpty", "Format"}
+                     "ItemCollectionDeduplication", "Contains-valid", "Append-valid", "Remove-valid", "DerefItem", "OnItem", "NotEmpty", "Format",
+                     "ToIRIs", "OnIRIs", "CollectionPath.IRI", "CollectionPath.Of"}
 
 HelpersAt(pos) == IF pos = "top" THEN TopHelpers ELSE ContainerHelpers
 
@@ -39,7 +45,7 @@ Allowed(h, nk, pos) ==
   CASE pos = "top" /\ h = "IsNil" -> {"true"}
     [] pos = "top" /\ h = "NotEmpty" -> {"false"}
     [] pos = "top" /\ h \in {"ItemsEqual-nil", "ItemsEqual-self"} -> {"true"}              \* equality treats it as nil
-    [] pos = "top" /\ h \in {"ItemsEqual-value", "ItemsEqual-value-rev"} -> {"false"}
+    [] pos = "top" /\ h \in {"ItemsEqual-value", "ItemsEqual-value-rev"} \cup EqualsMethods -> {"false"}   \* a value with an id never equals nothing
     [] OTHER -> any \cup {"true", "false"}
 CallbackAllowed == {"none", "nil", "valid"}        \* never a pointer into unrelated memory ("wild")
 
